@@ -612,6 +612,7 @@ pub async fn run_network(sc: Scenario) -> NetResult {
     // ---- director
     let mut max_rdelay = 0u64;
     let mut frozen_nodes: HashSet<usize> = HashSet::new();
+    let mut held_protos: HashSet<usize> = HashSet::new();
     for st in &sc.steps {
         if st.t > 0 {
             tokio::time::sleep(Duration::from_millis(st.t)).await;
@@ -671,6 +672,21 @@ pub async fn run_network(sc: Scenario) -> NetResult {
                     }
                 }
             }
+            // hold / release only the protocol event loop of a node
+            "freeze_proto" | "thaw_proto" => {
+                if st.o >= 1 && st.o <= n {
+                    if let Some(e) = &net.execs[st.o - 1] {
+                        log.ev(st.o, "d", json!({"e": "cut", "from": st.o, "to": st.o, "dir": st.a, "after": 0}));
+                        e.freeze_proto(st.a == "freeze_proto");
+                        net.count("proto_hold_steps");
+                        if st.a == "freeze_proto" {
+                            held_protos.insert(st.o);
+                        } else {
+                            held_protos.remove(&st.o);
+                        }
+                    }
+                }
+            }
             "freeze_node" | "thaw_node" => {
                 if st.o >= 1 && st.o <= n {
                     if let Some(e) = &net.execs[st.o - 1] {
@@ -711,6 +727,12 @@ pub async fn run_network(sc: Scenario) -> NetResult {
         }
     }
 
+    // a protocol loop still held at the end of the script is released (the hold is a scheduling delay, not a fault)
+    for node in held_protos {
+        if let Some(e) = &net.execs[node - 1] {
+            e.freeze_proto(false);
+        }
+    }
     // a node still frozen at the end of the script is a dropped node: whatever it asked for itself carries
     // no obligation (its protocol loop was never scheduled again)
     for node in frozen_nodes {
@@ -745,7 +767,10 @@ pub async fn run_network(sc: Scenario) -> NetResult {
     }
     // epilogue: tear connections down while the requesters still watch (a late second terminal
     // event - e.g. a failure after the response - would show up here)
-    if sc.epilogue == "kill" {
+    // (not when requests are still without outcome at the deadline: closing connections now would hand them a
+    // ConnectionClosed failure and hide the silence that is about to be judged)
+    if timed_out {
+    } else if sc.epilogue == "kill" {
         let issuers = net.ledger.lock().unwrap().issuers.clone();
         for node in 1..=n {
             if net.execs[node - 1].is_some() && !issuers.contains(&node) && !net.is_dead(node) {
